@@ -188,6 +188,7 @@ bool VM::executeSingle() {
       RegisterIndex ret_source = i.parameters.ret.source;
       WordIndex source_off = this->stack.back().data_start;
       this->data[target_off + ret_target] = this->data[source_off + ret_source];
+      this->data.resize(source_off);  // release the frame of the callee
       this->instruction_pointer = this->stack.back().ret_addr;
       this->stack.pop_back();
       break;
